@@ -53,7 +53,9 @@ def valid(inp):
                         if dsets[ver][t] != dsets[ver - 1][t]:
                             return False
             elif kind == "setok":
-                if not ev.get("ok", False) and ev.get("mode") not in MODES:
+                # an outage is garbage or refused connects; a truncated reply is only a reliable failure for queries with
+                # a fixed16 header (all rebuild queries), not for the broken peer's headerless status query
+                if not ev.get("ok", False) and ev.get("mode") not in ("garbage", "refuse"):
                     return False
             elif kind == "tick":
                 if "fault" in ev and ev["fault"] is not None:
